@@ -276,6 +276,9 @@ def check_dispatch(ctx, F, cfg, spec, P="C11"):
 
 
 def run(ctx):
+    if ctx.tier == "thorough":
+        from .witness import run_witness
+        run_witness(ctx, "C11")
     spec = json.load(open(os.path.join(VERIF, "spec", "commands.json")))
     ctx.explanation = ("Finite-domain table proof. The match patterns of `TryFrom<u8> for Operation`, `TryFrom<u8> for VendorOperation`, "
                        "`From<Operation> for u8` and `From<VendorOperation> for u8` are read from typed HIR (literals, evaluated consts, "
